@@ -117,18 +117,21 @@ pub fn gen(seed: u64, _idx: u64, tier: Tier) -> Scenario {
     let mut sc = Scenario::new("C05", seed);
     let nconn = r.range(1, 3) as usize;
     // reply-side flow control: 0 = default buffers, prompt reader; else small socket buffers
-    let buf = *r.pick(&[0i64, 0, 0, 4096, 16384]);
+    // a backlog of large replies behind a slow reader: hundreds of KiB to a few MiB of unsent output, written piecemeal
+    let fat = r.chance(1, 10);
+    sc.knobs.insert("fat".into(), fat as i64);
+    let buf = if fat { *r.pick(&[4096i64, 16384]) } else { *r.pick(&[0i64, 0, 0, 4096, 16384]) };
     sc.knobs.insert("buf".into(), buf);
     // slow reader: the client reads at most this many bytes per server turn and does not read while the server is inside a turn
-    let slow = if buf > 0 && r.chance(1, 2) { *r.pick(&[64i64, 512, 4096]) } else { 0 };
+    let slow = if fat { *r.pick(&[16384i64, 65536]) } else if buf > 0 && r.chance(1, 2) { *r.pick(&[64i64, 512, 4096]) } else { 0 };
     sc.knobs.insert("slow".into(), slow);
     let syscall_faults = r.chance(1, 3);
     sc.knobs.insert("syscall_faults".into(), syscall_faults as i64);
     let mut style = r.below(6); // 0 whole, 1 random chunks, 2 one byte at a time, 3 frame aligned, 4 around 8192, 5 tiny random
     // deep pipelines of tiny commands: several hundred complete requests arrive in ONE 8192-byte read
-    let dense = r.chance(1, 7);
+    let dense = !fat && r.chance(1, 7);
     sc.knobs.insert("dense".into(), dense as i64);
-    if dense { style = *r.pick(&[0u64, 0, 4, 3]); }
+    if dense || fat { style = *r.pick(&[0u64, 0, 4, 3]); }
     // fixture keys used by the error catalogue (never modified afterwards)
     sc.steps.push(Step::Connect { c: 9, inst: 0, buf: 0 });
     for a in [vec![b("SET"), b("strkey"), b("notanumber")], vec![b("RPUSH"), b("listkey"), b("a")], vec![b("HSET"), b("hashkey"), b("f"), b("v")], vec![b("ZADD"), b("zkey"), b("1"), b("m")]] {
@@ -138,10 +141,17 @@ pub fn gen(seed: u64, _idx: u64, tier: Tier) -> Scenario {
     let mut bounds: Vec<Vec<usize>> = vec![Vec::new(); nconn];
     for c in 0..nconn {
         sc.steps.push(Step::Connect { c, inst: 0, buf: buf as usize });
-        let nreq = if dense { *r.pick(&[257i64, 300, 513, 600, 1025, 2500]) } else { match tier { Tier::Quick => r.range(1, 60), Tier::Thorough => r.range(1, 200) } };
+        if fat {
+            let v = vec![b'F'; *r.pick(&[30_000usize, 65_536, 70_000])];
+            let bytes = cmd(&[b"SET", format!("fat{}", c).as_bytes(), &v]);
+            sc.steps.push(Step::Ctl { name: "req".into(), n: (c as i64) * 100 + K_OK, a: vec![B(bytes.clone())] });
+            streams[c].extend_from_slice(&bytes);
+            bounds[c].push(streams[c].len());
+        }
+        let nreq = if fat { r.range(6, 24) } else if dense { *r.pick(&[257i64, 300, 513, 600, 1025, 2500]) } else { match tier { Tier::Quick => r.range(1, 60), Tier::Thorough => r.range(1, 200) } };
         let mut marker = 0;
         for i in 0..nreq {
-            let (kind, bytes) = if dense {
+            let (kind, bytes) = if fat && !r.chance(1, 4) { (K_OK, cmd(&[b"GET", format!("fat{}", c).as_bytes()])) } else if dense {
                 match r.below(8) {
                     0 => (K_OK, cmd(&[b"PING"])),
                     1 => (K_ERR, cmd(&[b"GET"])),
@@ -366,7 +376,7 @@ fn viol_name(bytes: &[u8]) -> String { bytes.iter().take(6).map(|b| if b.is_asci
 pub static DEF: CheckDef = CheckDef {
     id: "C05", level: "exploration", gen, exec,
     nontrivial: |o| o.counters.get("requests").copied().unwrap_or(0) >= 3 && o.counters.get("segments").copied().unwrap_or(0) >= 1,
-    rule: "one run = 1-3 connections each pipelining 1-200 requests (in a seventh of the runs: 257-2500 tiny requests, so that several hundred complete requests arrive in one 8192-byte read) from a catalogue of valid commands of every family, refused commands (unknown, wrong arity, wrong type, bad argument, missing key, CR/LF in command names and arguments, binary), unique ECHO sentinels, optionally ending in a protocol-violating frame; the request byte streams are delivered under one of six segmentation styles (whole, random chunks, one byte at a time, frame-aligned, around the 8192-byte read boundary, tiny chunks), interleaved between connections by the schedule stream, optionally over small socket buffers; oracle: the bytes received by each client, decoded by the independent RESP reader, are exactly one well-formed reply per request, in order, of the expected kind (error / non-error / exact sentinel), nothing surplus, an error after a protocol violation; non-trivial = at least 3 requests; distinct = distinct event-log hash; in a third of the runs single reads / writes on a connection's socket are additionally made to fail with EINTR or EAGAIN or to transfer only 1..100 bytes (fault injection at the libc boundary) - transient outcomes that must not change the reply stream",
+    rule: "one run = 1-3 connections each pipelining 1-200 requests (in a seventh of the runs: 257-2500 tiny requests, so that several hundred complete requests arrive in one 8192-byte read; in a tenth: 6-24 requests most of which are answered with a 30-70 KB value, read by a client that takes 16-64 KiB per turn over 4-16 KiB socket buffers, so that hundreds of KiB to MiB of replies wait in the connection's write buffer and leave in pieces) from a catalogue of valid commands of every family, refused commands (unknown, wrong arity, wrong type, bad argument, missing key, CR/LF in command names and arguments, binary), unique ECHO sentinels, optionally ending in a protocol-violating frame; the request byte streams are delivered under one of six segmentation styles (whole, random chunks, one byte at a time, frame-aligned, around the 8192-byte read boundary, tiny chunks), interleaved between connections by the schedule stream, optionally over small socket buffers; oracle: the bytes received by each client, decoded by the independent RESP reader, are exactly one well-formed reply per request, in order, of the expected kind (error / non-error / exact sentinel), nothing surplus, an error after a protocol violation; non-trivial = at least 3 requests; distinct = distinct event-log hash; in a third of the runs single reads / writes on a connection's socket are additionally made to fail with EINTR or EAGAIN or to transfer only 1..100 bytes (fault injection at the libc boundary) - transient outcomes that must not change the reply stream",
     quick_budget_s: 40.0, thorough_budget_s: 900.0, quick_max_runs: 1_000_000, thorough_max_runs: 100_000_000, exhaustive: false, exhaustive_after: |_| 0,
     real: REAL_WHOLE_SERVER, stub: STUB_WHOLE_SERVER, assumptions: ASSUME_COMMON,
 };
